@@ -27,6 +27,11 @@ type loopRt struct {
 	rangeLen Val // for rangeindex loops: the length value
 	idxPhi   *ssa.Phi
 	iter     *mapIter
+	// counter loops `for i := v0; i < B; i++` with B invariant in the loop (automatic invariant)
+	cntPhi   *ssa.Phi
+	cntInit  Val
+	cntBound ssa.Value // B itself when defined outside the loop
+	cntLenOf ssa.Value // x when B is len(x) and x is defined outside the loop
 }
 
 type Frame struct {
@@ -408,6 +413,7 @@ func (fr *Frame) loopHead(li *LoopInfo, st *State, pc Term, phiEntry map[*ssa.Ph
 	rt := &loopRt{li: li, phiVals: map[*ssa.Phi]Val{}, headPC: pc}
 	fr.lrt[li.Head] = rt
 	fr.detectRange(rt, st)
+	fr.detectCounter(rt, st, phiEntry)
 	// inv-init
 	if e.pure == 0 {
 		for i, inv := range fr.invariants(rt) {
@@ -468,6 +474,9 @@ func (fr *Frame) invariants(rt *loopRt) []Clause {
 	if rt.idxPhi != nil {
 		out = append(out, Clause{Text: "@rangeauto"})
 	}
+	if rt.cntPhi != nil {
+		out = append(out, Clause{Text: "@counterauto"})
+	}
 	if rt.li.Spec != nil {
 		out = append(out, rt.li.Spec.Invariants...)
 	}
@@ -509,8 +518,104 @@ func (fr *Frame) evalInv(inv Clause, rt *loopRt, st *State, phis map[*ssa.Phi]Va
 		n := e.toTerm(st, rt.rangeLen)
 		return And(Cmp("<=", IntLit(-1), p), Cmp("<=", p, Arith("-", n, IntLit(1)))), nil
 	}
+	if inv.Text == "@counterauto" {
+		// v0 <= i and (i <= B or i == v0): holds on entry; in the body i < B, so i+1 <= B
+		pv, ok := phis[rt.cntPhi]
+		if !ok {
+			return True, nil
+		}
+		p := e.toTerm(st, pv)
+		v0 := e.toTerm(st, rt.cntInit)
+		var b Term
+		if rt.cntLenOf != nil {
+			x := fr.get(st, rt.cntLenOf)
+			switch x.K {
+			case vSlice:
+				b = x.Len
+			default:
+				return True, nil
+			}
+		} else {
+			b = e.toTerm(st, fr.get(st, rt.cntBound))
+		}
+		if p.Sort != SInt || b.Sort != SInt || v0.Sort != SInt {
+			return True, nil
+		}
+		return And(Cmp("<=", v0, p), Or(Cmp("<=", p, b), Eq(p, v0))), nil
+	}
 	env := fr.nameEnv(st, rt, phis)
 	return e.evalClause(inv.Text, env)
+}
+
+// detectCounter recognises `for i := v0; i < B; i++` where B is defined outside the loop, or is
+// len(x) of a slice x defined outside the loop, and i is only changed by the increment.
+func (fr *Frame) detectCounter(rt *loopRt, st *State, phiEntry map[*ssa.Phi]Val) {
+	if rt.idxPhi != nil || rt.iter != nil {
+		return
+	}
+	h := rt.li.Head
+	inLoop := func(v ssa.Value) bool {
+		ins, ok := v.(ssa.Instruction)
+		if !ok {
+			return false // parameters, constants, globals
+		}
+		return ins.Block() != nil && (ins.Block() == h || rt.li.Body[ins.Block()])
+	}
+	ifi, ok := h.Instrs[len(h.Instrs)-1].(*ssa.If)
+	if !ok {
+		return
+	}
+	cmp, ok := ifi.Cond.(*ssa.BinOp)
+	if !ok || cmp.Op != token.LSS {
+		return
+	}
+	phi, ok := cmp.X.(*ssa.Phi)
+	if !ok || phi.Block() != h || len(phi.Edges) != 2 {
+		return
+	}
+	// one edge from outside (initial value), one from inside that is phi + 1
+	var init ssa.Value
+	incOK := false
+	for i, pred := range h.Preds {
+		ed := phi.Edges[i]
+		if pred == h || rt.li.Body[pred] {
+			add, ok := ed.(*ssa.BinOp)
+			if !ok || add.Op != token.ADD || add.X != ssa.Value(phi) {
+				return
+			}
+			c, ok := add.Y.(*ssa.Const)
+			if !ok || c.Value == nil || c.Int64() != 1 {
+				return
+			}
+			incOK = true
+		} else {
+			init = ed
+		}
+	}
+	if !incOK || init == nil {
+		return
+	}
+	switch y := cmp.Y.(type) {
+	case *ssa.Call:
+		b, ok := y.Call.Value.(*ssa.Builtin)
+		if !ok || b.Name() != "len" || len(y.Call.Args) != 1 || inLoop(y.Call.Args[0]) {
+			return
+		}
+		if _, isSlice := y.Call.Args[0].Type().Underlying().(*types.Slice); !isSlice {
+			return
+		}
+		rt.cntLenOf = y.Call.Args[0]
+	default:
+		if inLoop(cmp.Y) {
+			return
+		}
+		rt.cntBound = cmp.Y
+	}
+	iv, ok := phiEntry[phi]
+	if !ok {
+		return
+	}
+	rt.cntPhi, rt.cntInit = phi, iv
 }
 
 func (fr *Frame) backEdge(b, h *ssa.BasicBlock) {
